@@ -85,12 +85,17 @@ def run(ctx):
     pairs = [(t['base'], t['twin']) for t in conf['twins'] if t['base'] in handlers]
     ncmp = 0
     for base, twin in pairs:
-        for k in range(6 if ctx.quick else 60):
+        for k in range(60 if ctx.quick else 240):
             name_for_words = twin if twin in AUDIT else base
             S = pr.distinct_words(name_for_words, 'start')
             E = pr.distinct_words(name_for_words, 'end')
             if k % 2 == 0:
                 E[0] = 0
+            if k >= 2:              # boundary values, one free START word at a time (fd -1 / -2 = AT_FDCWD, flags 0 / 1, ...)
+                from .c09 import BOUNDARY
+                j = k % 4
+                if AUDIT[name_for_words]['dom'][j] is None:
+                    S[j] = BOUNDARY[(k // 4 + j) % len(BOUNDARY)]
             paths = [b'/tw%d' % i for i in range(k % 3)]
 
             def rend(n):
